@@ -112,6 +112,27 @@ def handleStateless (toks : List String) : String :=
         then err "value" else showRats (Path.respaceTargets climb α)
       | _, _ => err "format"
     | none => err "format"
+  -- ctor e style gfx kw ifx : what `create_path` does with these arguments (`-` = argument left out)
+  | ["ctor", e, style, gfx, kw, ifx] =>
+    let fx? : String → Option (Option FxnArg) := fun t =>
+      if t = "-" then some none else if t = "c" then some (some .callable) else if t = "o" then some (some .other)
+      else if t.startsWith "n:" then some (some (.name (t.drop 2).toString)) else none
+    let kw? : Option (Option KwArg) := match kw with
+      | "-" => some none | "none" => some (some .none) | "dict" => some (some .dict) | "other" => some (some .other)
+      | _ => none
+    let st? : Option (Option String) :=
+      if style = "-" then some none else if style.startsWith "s:" then some (some (style.drop 2).toString) else none
+    match fx? gfx, fx? ifx, kw?, st? with
+    | some g, some i, some k, some st =>
+      if e ≠ "0" ∧ e ≠ "1" then err "format" else
+      match createPath { energyCallable := e = "1", style := st, gradientfxn := g, gradientkwargs := k, integratorfxn := i } with
+      | .ok (g, i, fresh) =>
+        let gs := match g with | .centralDifference => "central_difference" | .user => "user"
+        let is := match i with | .rungekutta => "rungekutta" | .euler => "euler" | .user => "user"
+        s!"ok {gs} {is} {if fresh then 1 else 0}"
+      | .error .value => err "value"
+      | .error .type => err "type"
+    | _, _, _, _ => err "format"
   | "pdef" :: n :: [] =>
     match n.toNat? with
     | some n => if n = 0 then err "value" else
